@@ -19,7 +19,7 @@ func main() {
 	}
 	id := os.Args[1]
 	ck := checks.Registry[id]
-	if ck == nil {
+	if ck == nil && id != "DICT" {
 		fmt.Printf("INCONCLUSIVE property=%s reason=no such check\n", id)
 		os.Exit(3)
 	}
@@ -34,6 +34,10 @@ func main() {
 		repo = "/repo"
 	}
 	gen.LoadDictionary(repo)
+	if id == "DICT" { // verifmon DICT dump: the baseline file for gen/baseline_dict.json
+		os.Stdout.Write(gen.DumpDictionary())
+		return
+	}
 	// the hash-collision pairs are enumerated (or read from .build/) before any monitored call is made and before
 	// child processes are started, so that the enumeration never runs next to a CPU-budgeted call
 	gen.CollidingPairs("")
@@ -69,6 +73,7 @@ func main() {
 	}
 	dw, dn := gen.DictSizes()
 	c.Note("source_dictionary", map[string]int{"words": dw, "numbers": dn})
+	c.Note("source_dictionary_not_in_baseline", gen.DeltaSizes())
 	ck.Run(c)
 	os.Exit(c.Finish(ck.Rule, ck.Assumptions, ck.MinEvals))
 }
